@@ -2,6 +2,7 @@
 import TornadoModel.C30.Lemmas
 import TornadoModel.C30.Multipart
 import TornadoModel.C30.Multipart2231
+import TornadoModel.C30.Inner
 import TornadoModel.Base.Wire
 namespace TornadoModel.C30
 open TornadoModel.C06 (Str)
@@ -31,6 +32,70 @@ theorem only_input_error (cfg : Config) (ct : Str) (body : Bytes) (ce : Bool) :
             · rfl
             · exact collapse_not_uncaught _
     · rfl
+
+/-! ### what the catch-all of `parse_body_arguments` has to catch -/
+
+/-- `multipart_inner_exceptions`: at the `parse_multipart_form_data` entry — OUTSIDE the `except Exception` of
+    `parse_body_arguments`, where the exception type is observable and is compared with the real code on every case — the
+    only exception type other than HTTPInputError is UnicodeDecodeError (a part header block that is not UTF-8), for every
+    configuration, boundary, body and pre-filled result.  (`HTTPHeaders.parse` on a fresh object never raises KeyError:
+    `part_headers_never_keyerror`; the fixed `_parse_header` raises nothing.)  This is the content behind `only_input_error`,
+    which by itself only restates the catch-all. -/
+theorem multipart_inner_exceptions (cfg : Config) (b data : Bytes) (f : Form) (k : String)
+    (h : parseMultipart cfg b data f = .error (.uncaught k)) : k = "UnicodeDecodeError" :=
+  parseMultipart_uncaught cfg b data f k h
+
+theorem utf8Strict_ff : utf8Strict [255, 58, 32, 120] = none := by
+  have h : C43.utf8Dec [255, 58, 32, 120] = [65533, 58, 32, 120] := by
+    rw [C43.utf8Dec.eq_def]
+    simp only [show ¬ (255 < 128) by decide, if_false, show (decide (194 ≤ 255) && decide (255 ≤ 223)) = false by decide,
+      show (decide (224 ≤ 255) && decide (255 ≤ 239)) = false by decide,
+      show (decide (240 ≤ 255) && decide (255 ≤ 244)) = false by decide, Bool.false_eq_true]
+    rw [utf8Dec_1 58 _ (by decide), utf8Dec_1 32 _ (by decide), utf8Dec_1 120 _ (by decide), C43.utf8Dec.eq_def]
+  unfold utf8Strict
+  simp only [h]
+  decide
+
+theorem parsePart_ff (f : Form) :
+    parsePart {} [255, 58, 32, 120, 13, 10, 13, 10, 118, 13, 10] f = .error (.uncaught "UnicodeDecodeError") := by
+  have hfind : findSub [13, 10, 13, 10] [255, 58, 32, 120, 13, 10, 13, 10, 118, 13, 10] = some 4 := by decide
+  have htake : List.take 4 [255, 58, 32, 120, 13, 10, 13, 10, 118, 13, 10] = [255, 58, 32, 120] := by decide
+  have hsz : ¬ (4 > ({} : Config).maxPartHeaderSize) := by decide
+  unfold parsePart
+  simp only [hfind, hsz, if_false, htake, utf8Strict_ff]
+
+/-- and it does happen, so the catch-all is needed: the body `--b CRLF 0xFF: x CRLF CRLF v CRLF --b--` -/
+theorem multipart_inner_unicode_error :
+    parseMultipart {} [98] [45, 45, 98, 13, 10, 255, 58, 32, 120, 13, 10, 13, 10, 118, 13, 10, 45, 45, 98, 45, 45] {} =
+      .error (.uncaught "UnicodeDecodeError") := by
+  have hr : rfindSub (dashes ++ unquoteBoundary [98] ++ dashes)
+      [45, 45, 98, 13, 10, 255, 58, 32, 120, 13, 10, 13, 10, 118, 13, 10, 45, 45, 98, 45, 45] = some 16 := by decide
+  have hs : splitOn (dashes ++ unquoteBoundary [98] ++ crlf)
+      (List.take 16 [45, 45, 98, 13, 10, 255, 58, 32, 120, 13, 10, 13, 10, 118, 13, 10, 45, 45, 98, 45, 45]) =
+      [[], [255, 58, 32, 120, 13, 10, 13, 10, 118, 13, 10]] := by decide
+  have hn : ¬ (([[], [255, 58, 32, 120, 13, 10, 13, 10, 118, 13, 10]] : List Bytes).length - 1 > ({} : Config).maxParts) := by
+    decide
+  unfold parseMultipart
+  simp only [Bool.not_true, Bool.false_eq_true, if_false, hr, hs, hn, List.foldlM_cons, List.foldlM_nil, List.isEmpty_nil,
+    List.isEmpty_cons, if_true, parsePart_ff, bind, Except.bind, pure, Except.pure]
+
+/-- `HTTPHeaders.parse(text)` on a fresh object never raises KeyError (its `_last_key` always names an existing entry) -/
+theorem part_headers_never_keyerror (text : Str) (cb : Bool) : C06.parse text cb ≠ .error .keyError :=
+  parse_noKeyError text cb
+
+/-- the three outcomes at the `parse_body_arguments` entry: a result, HTTPInputError, or the model gives up (`unmodelled`: an
+    RFC 2231 charset other than utf-8 / us-ascii / latin-1 in some part — there the clause rests on the tie's oracle) -/
+theorem parse_body_outcomes (cfg : Config) (ct : Str) (body : Bytes) (ce : Bool) :
+    (∃ f, parseBody cfg ct body ce = .ok f) ∨ parseBody cfg ct body ce = .error .httpInput ∨
+      parseBody cfg ct body ce = .error .unmodelled := by
+  have h := only_input_error cfg ct body ce
+  cases hr : parseBody cfg ct body ce with
+  | ok f => exact Or.inl ⟨f, rfl⟩
+  | error e =>
+    cases e with
+    | httpInput => exact Or.inr (Or.inl rfl)
+    | unmodelled => exact Or.inr (Or.inr rfl)
+    | uncaught k => rw [hr] at h; cases h
 
 /-! ### urlencoded forms -/
 
